@@ -41,6 +41,8 @@ for s in (1, 2, 3, 4, 8):
     RUNS.append(_run('load_int', 'h_load_int', 16, 8, s, Q, mode='INT', note='retry loop and wait loop cut by invariant; all 64-bit _seq below the no-wrap bound'))
     if s > 1:
         RUNS.append(_run('load_solo', 'h_load_solo', 16, 8, s, Q, mode='SOLO', extra=['sl_load.0:1', 'sl_load.1:3'], unwind_obligation='sl.load.terminates'))
+for s in (1, 2, 3, 4, 8):
+    RUNS.append(_run('mod_lemma', 'h_mod_lemma', 16, 8, s, Q, cls='unbounded'))
 RUNS.append(_run('acquire_int', 'h_acquire_int', 16, 8, 2, Q, mode='INT', cls='unbounded'))
 for (w, a, s) in [(24, 8, 3), (64, 8, 2), (12, 4, 2), (33, 1, 3)]:
     t = Q if w == 24 else TH
@@ -122,6 +124,7 @@ UNIT = dict(
     'sl.load.readonly': dict(deciding=True, text='load writes neither _seq nor any slot'),
     'sl.load.sync': dict(deciding=True, text='sync precondition: every load of _seq in load() is acquire-or-stronger and an acquire fence separates the relaxed data loads from the validating load of _seq (comments 1,2,3,6)'),
     'sl.store.sync': dict(deciding=True, text='sync precondition: the lock CAS is acquire-or-stronger, a release fence separates it from the relaxed data stores, the unlocking store is release-or-stronger (comments 4,5,7)'),
+    'sl.env.mod_lemma': dict(deciding=False, text='(k + e) mod slots == ((k mod slots) + e) mod slots for e < slots and all k below the no-wrap bound: the fact by which the INT environment (stated relative to the reader\'s last observation) covers rely R2'),
     'sl.load.terminates': dict(deciding=True, text='[SOLO] slots > 1: load returns within 2 iterations from any state, odd _seq included'),
   },
   loop_obligation={'LOAD': 'sl.load.untorn', 'WAIT': 'sl.load.untorn', 'ACQ': 'sl.lock.acquire', 'ACQW': 'sl.lock.acquire'},
@@ -129,5 +132,5 @@ UNIT = dict(
            'sl.copy.aligned': dict(src='replay_copy.cpp'), 'sl.copy.in_bounds': dict(src='replay_copy.cpp')},
   canaries=['copy.frame_other_slot', 'copy.done', 'copy.tail_byte', 'lock.done', 'store_load.done', 'store_load.frame', 'update.done', 'update.frame',
             'slots.multi', 'slots.done', 'solo.odd', 'solo.even', 'load_int.returned', 'load_int.seq_moved', 'load_int.env_wrote', 'load_int.odd_start',
-            'acquire_int.returned', 'acquire_int.env_wrote'],
+            'acquire_int.returned', 'acquire_int.env_wrote', 'mod_lemma.reached'],
 )
